@@ -191,7 +191,7 @@ fn gen_tree(dna: &[u8], depth: usize) -> (Option<Vec<(String, Meta)>>, Comp) {
 	(t, comp)
 }
 
-const FIXED: usize = 18;
+const FIXED: usize = 21;
 fn fixed(i: usize) -> Option<Vec<(String, Meta)>> {
 	let s = |x: &str| Meta::Str(x.to_string());
 	match i {
@@ -207,6 +207,10 @@ fn fixed(i: usize) -> Option<Vec<(String, Meta)>> {
 		10 => Some((0..300).map(|i| (format!("m{}", i), Meta::Map(vec![]))).collect()),
 		16 => Some(crate::gen::bulky_metadata(40, 1)),
 		17 => Some(crate::gen::bulky_metadata(300, 2)),
+		// > 1 MiB of metadata (as UBJSON and as JSON)
+		18 => Some(crate::gen::bulky_metadata(5200, 3)),
+		19 => Some(vec![("$serde_json::private::RawValue".into(), s("[1,2]")), ("x".into(), Meta::Int(1))]),
+		20 => Some(vec![("wrap".into(), Meta::Map(vec![("$serde_json::private::Number".into(), s("123"))]))]),
 		11 => Some((0..6).map(|a| (format!("a{}", a), Meta::Map((0..6).map(|b| (format!("b{}", b), Meta::Map((0..6).map(|c| (format!("c{}", c), Meta::Map(vec![("v".into(), Meta::Int(a * 36 + b * 6 + c))]))).collect()))).collect()))).collect()),
 		12 => Some((0..60).map(|p| (format!("{}", p), Meta::Map(vec![("characters".into(), Meta::Map(vec![("1".into(), Meta::Int(p))])), ("names".into(), Meta::Map(vec![("netplay".into(), s("x")), ("code".into(), s("A#1"))]))]))).collect()),
 		13 | 14 | 15 => {
